@@ -271,6 +271,20 @@ pub fn tamper_statement(
             }
             params = RangeParameters::init(n, st.generators.max_aggregation_factor(), pc).expect("params");
         },
+        "gc_drop_last" | "gc_append" => {
+            // only the COMPRESSED blinding-generator vector (the one that is hashed) changes length
+            let mut pc = ristretto::create_pedersen_gens_with_extension_degree(ext_degree(x));
+            if op == "gc_drop_last" {
+                pc.g_base_compressed_vec.pop();
+            } else {
+                let g = env::free_point(&format!("gcapp_{}", idx));
+                pc.g_base_compressed_vec.push(g.compress());
+            }
+            params = match catch_unwind(AssertUnwindSafe(|| RangeParameters::init(n, st.generators.max_aggregation_factor(), pc))) {
+                Ok(Ok(p)) => p,
+                _ => st.generators.clone(),
+            };
+        },
         "g_drop_last" | "g_append" => {
             // the blinding-generator VECTOR changes length while the degree tag, H and every remaining generator stay as they are
             let mut pc = ristretto::create_pedersen_gens_with_extension_degree(ext_degree(x));
